@@ -1,7 +1,6 @@
 (* C06 -- TypeBlocks.resize_blocks is independent of the block layout: for EVERY partition of the
    columns into 1-D / 2-D blocks, the re-indexed blocks flatten to a function of the flattened columns
-   alone -- on the domain [resize_dom] (everything but the both-axes branch with exactly one axis that
-   has nothing in common, where Refuted/C06.v shows the layout does matter). *)
+   alone (unconditionally since fix 658b4ce of the both-axes branch). *)
 Require Import SF.Prelude SF.Dtype SF.LabelAlign SF.FrameAlign.
 
 (* ---- generic list and dictionary facts (outside any section) ---- *)
@@ -187,29 +186,21 @@ Proof. unfold FrameAlign.flatten. cbn. apply app_nil_r. Qed.
 Theorem resize_blocks_layout_independent (t : list blk) nrows ic cc :
   Forall wf_blk t ->
   match cc with Some c => wf_ic c /\ Forall (fun s => (s < length (flatten t))%nat) (ic_src c) | None => True end ->
-  resize_dom ic cc = true ->
   exists t', M_resize t nrows ic cc = Ok t' /\ flatten t' = S_resize (flatten t) nrows ic cc.
 Proof.
-  intros Hwf Hcc Hdom. unfold M_resize_blocks, S_resize_cols.
+  intros Hwf Hcc. unfold M_resize_blocks, S_resize_cols.
   destruct cc as [c|]; destruct ic as [i|].
   - (* both axes *)
     destruct Hcc as [[Hnc [Hne [Hsub Hnd]]] Hrange].
-    cbn in Hdom.
     destruct (negb (ic_has_common c) && negb (ic_has_common i)) eqn:Eboth.
     { apply andb_true_iff in Eboth as [E1 E2]. apply negb_true_iff in E1.
       destruct (Hnc E1) as [Hd Hs]. eexists. split; [reflexivity|].
       rewrite flatten_single. unfold FrameAlign.blk_columns. cbn [k_dtype k_cols].
       rewrite map_repeat'. rewrite Hd, Hs. unfold dict_get. cbn [combine fold_left rows_out].
       symmetry. apply map_const_seq. }
-    assert (Hhc : ic_has_common c = true).
-    { destruct (ic_has_common c) eqn:E; [reflexivity|].
-      destruct (ic_has_common i); cbn in Hdom, Eboth; congruence. }
-    rewrite Hhc in Hdom. cbn in Hdom.
-    assert (Hi : ic_is_subset i || ic_has_common i = true) by exact Hdom.
-    clear Hdom.
     destruct (is_single V t && ic_is_subset i && ic_is_subset c) eqn:Euni.
     { apply andb_true_iff in Euni as [Euni Esc]. apply andb_true_iff in Euni as [Esingle Esi].
-      destruct (Hsub Esc) as [_ [Hdst Hlen]].
+      destruct (Hsub Esc) as [Hhc [Hdst Hlen]].
       destruct t as [|b [|b2 r]]; try discriminate.
       - (* no block: impossible, some source column exists *)
         exfalso. destruct (ic_src c) as [|s r] eqn:Es; [apply Hne; [exact Hhc | reflexivity]|].
@@ -245,31 +236,15 @@ Proof.
           rewrite nth_blk_columns by exact Hs.
           unfold FrameAlign.S_col_rows, rows_dtype, rows_vals, M_reindex_values. cbn [fst snd].
           rewrite Esi. reflexivity. }
-    rewrite Hhc. cbn [negb].
-    eexists. split.
-    + apply res_all_ok with
-        (h := fun j => match dict_get j (ic_dst c) (ic_src c) with
-                       | Some s => let cl := S_col_rows (Some i) (nth s (flatten t) dflt_col) in
-                                   mk_blk V (fst cl) true [snd cl]
-                       | None => mk_blk V fill_dtype true [repeat fill (ic_size i)]
-                       end).
-      intros j _. destruct (dict_get j (ic_dst c) (ic_src c)) as [s|] eqn:Ed; [|reflexivity].
+    eexists. split; [reflexivity|].
+    apply flat_map_single. intros j _.
+    destruct (ic_has_common c) eqn:Ehc.
+    + destruct (dict_get j (ic_dst c) (ic_src c)) as [s|] eqn:Ed; [|reflexivity].
       assert (Hs : (s < length (flatten t))%nat)
         by (apply (proj1 (Forall_forall _ _) Hrange); eapply dict_get_In; exact Ed).
       pose proof (column_at_directory t s Hs) as Hcol. unfold FrameAlign.column_at in Hcol.
-      set (p := nth s (directory t) (0%nat, 0%nat)) in *.
-      set (b := nth (fst p) t (dflt_blk V fill_dtype)) in *.
-      rewrite <- Hcol. cbn [fst snd].
-      unfold FrameAlign.S_col_rows, rows_dtype, rows_vals, M_reindex_values. cbn [fst snd].
-      destruct (ic_is_subset i) eqn:Esi; [reflexivity|].
-      cbn in Hi. unfold assign_unchecked. rewrite Hi. reflexivity.
-    + rewrite (flat_map_single nat _
-        (fun j => match dict_get j (ic_dst c) (ic_src c) with
-                  | Some s => S_col_rows (Some i) (nth s (flatten t) dflt_col)
-                  | None => (fill_dtype, repeat fill (ic_size i))
-                  end)).
-      * reflexivity.
-      * intros j _. destruct (dict_get j (ic_dst c) (ic_src c)); reflexivity.
+      rewrite <- Hcol. reflexivity.
+    + destruct (Hnc eq_refl) as [Hd Hs]. rewrite Hd, Hs. reflexivity.
   - (* columns only *)
     destruct Hcc as [[Hnc [Hne [Hsub Hnd]]] Hrange]. cbn [rows_out].
     destruct (negb (ic_has_common c)) eqn:Ehc.
